@@ -3,6 +3,7 @@ Translator leg for C13 ("all constructors and conversions agree"): the model has
 impls are modelled as that same function and `Display` as `as_ref`. The bodies are listed from the source on every run.
 -/
 import WowSrp.Gen.Constants
+import WowSrp.Gen.Facts
 namespace WowSrp
 
 /-- every other constructor is `Self::new(..)` on its argument, `Display` writes `as_ref()` -/
